@@ -1,6 +1,7 @@
 """C10 -- a query's record is independent of the other molecules and of file order (decidable reduction, see harness/invariance.py)."""
-from harness import invariance
+from harness import invariance, c17
 
 
 def units(prop):
-    return [invariance.noninterference_unit(), invariance.aggregation_unit(restrict=True), invariance.selection_unit()]
+    return [invariance.noninterference_unit(), invariance.aggregation_unit(restrict=True), invariance.selection_unit(),
+            c17.units("C17")[1]]     # sampled: CMAP row / molecule order and id filters through the real reader
